@@ -1,0 +1,57 @@
+//go:build verif
+
+package lazyproto
+
+import "sync/atomic"
+
+// This file is only compiled with the "verif" build tag.  It exposes read-only observation points
+// used by the external runtime-verification harness.  Nothing here changes behavior.
+
+// VerifHook, when set, is invoked at named points inside the package so that a harness can inject
+// yields/delays between critical sections and count how often each point was reached.
+var VerifHook atomic.Pointer[func(site string)]
+
+// VerifResultState is a snapshot of the internal state of a DecodeResult taken at the moment it is
+// handed out by a decoder's pool, before any data is decoded into it.
+type VerifResultState struct {
+	// NonEmptyFlat is the number of field data entries that still hold raw data
+	NonEmptyFlat int
+	// NilFlat is the number of nil field data entries
+	NilFlat int
+	// ClosersLen is the length of the list of nested results to be closed
+	ClosersLen int
+	// NilClosers is the number of nil entries in that list
+	NilClosers int
+}
+
+// VerifHandOut, when set, is invoked each time a pooled DecodeResult is handed out.
+var VerifHandOut atomic.Pointer[func(r *DecodeResult, st VerifResultState)]
+
+func verifPoint(site string) {
+	if h := VerifHook.Load(); h != nil {
+		(*h)(site)
+	}
+}
+
+func verifHandOut(r *DecodeResult) {
+	h := VerifHandOut.Load()
+	if h == nil || r == nil {
+		return
+	}
+	var st VerifResultState
+	for _, fd := range r.flatData {
+		switch {
+		case fd == nil:
+			st.NilFlat++
+		case len(fd.data) > 0:
+			st.NonEmptyFlat++
+		}
+	}
+	st.ClosersLen = len(r.closers)
+	for _, c := range r.closers {
+		if c == nil {
+			st.NilClosers++
+		}
+	}
+	(*h)(r, st)
+}
